@@ -1,5 +1,6 @@
 """C04 - disabled dispatchers defer events and release them once, in order."""
 import collections
+import contextlib
 import itertools
 
 from mc import env  # noqa: F401
@@ -249,8 +250,12 @@ class DeferDriver:
         if ctx.pending:
             ctx.hits['release_backlog'] += 1
         raised = None
+        # the step budget (line tracing) is only needed for the transition
+        # under test: a prefix being replayed has already terminated once
+        guard = (budget(self.budget_lines) if getattr(ctx, 'under_test', False)
+                 else contextlib.nullcontext())
         try:
-            with budget(self.budget_lines):
+            with guard:
                 try:
                     d.dispatch_enabled = True
                 except Boom as exc:
@@ -463,8 +468,13 @@ def drivers(tier):
     if tier == 'quick':
         return {'defer': (DeferDriver(max_queue=4, max_faults=1),
                           dict(max_states=200000, time_budget=300))}
-    return {'defer': (DeferDriver(max_queue=4, max_faults=2),
-                      dict(max_states=2000000, time_budget=3000))}
+    d1 = DeferDriver(max_queue=5, max_faults=1)
+    d1.name = 'defer-queue5'
+    d2 = DeferDriver(max_queue=2, max_faults=2)
+    d2.name = 'defer-two-faults'
+    return {'defer-queue5': (d1, dict(max_states=2000000, time_budget=1500)),
+            'defer-two-faults': (d2, dict(max_states=2000000,
+                                          time_budget=1500))}
 
 
 def run(tier, rep):
@@ -507,4 +517,7 @@ def replay(rec):
         ds = drivers(tier)
         if rec['part'] in ds:
             return kernel.replay_case(ds[rec['part']][0], rec['case'])
+    if rec['part'].startswith('defer'):     # records of earlier bounds
+        return kernel.replay_case(DeferDriver(max_queue=5, max_faults=2),
+                                  rec['case'])
     raise SystemExit(f'unknown part {rec["part"]}')
